@@ -38,8 +38,8 @@ theorem pendSub_of_pending {p' p : WP} (h : ∀ k, k ∈ p'.pending → k ∈ p.
 
 /-! ### `WorkerProperties` functions -/
 
-theorem getNextNonExpired_pend (mq : List Job) (pend : List Nat) (e : Env) :
-    ∀ k, k ∈ (getNextNonExpired mq pend e).2.2.1 → k ∈ pend := by
+theorem getNextNonExpired_pend {h : Option Nat} (mq : List Job) (pend : List Nat) (e : Env) :
+    ∀ k, k ∈ (getNextNonExpired h mq pend e).2.2.1 → k ∈ pend := by
   induction mq generalizing pend e with
   | nil => intro k h; exact h
   | cons j rest ih =>
@@ -449,7 +449,7 @@ theorem affInv_growOne (w : W) (wid : Nat) (h : AffInv w) : AffInv (w.growOne wi
     · exact h1
   · rename_i hg
     refine AffInv.of_routerFrame ?_ (availChange_frame _ _ _)
-    refine ⟨h.kp, nodupW_append_new (p := { wid := wid, actor := w.nextAid, disc := w.workerDiscard w.disc }) hg h.nodup, ?_⟩
+    refine ⟨h.kp, nodupW_append_new (p := { wid := wid, actor := w.nextAid, disc := w.workerDiscard w.disc, handler := w.handler }) hg h.nodup, ?_⟩
     intro k
     simp only
     rw [pendCount_append_new k w.pool _ rfl]
@@ -566,6 +566,18 @@ theorem pendCount_map_disc (k : Nat) (pool : List WP) (d : Option (Nat × Mode))
     pendCount k (pool.map fun p => { p with disc := d }) = pendCount k pool := by
   simp [pendCount, List.countP_map, Function.comp_def, WP.hasPendingKey]
 
+theorem affInv_setHandler (w : W) (hd : Option Nat) (h : AffInv w) : AffInv (w.setHandler hd) := by
+  refine ⟨h.kp, ?_, ?_⟩
+  · show NodupW (w.pool.map _)
+    unfold NodupW
+    rw [List.map_map]
+    exact h.nodup
+  · intro k
+    show pendCount k (w.pool.map _) ≤ 1
+    have : pendCount k (w.pool.map fun p => { p with handler := hd }) = pendCount k w.pool := by
+      simp [pendCount, List.countP_map, Function.comp_def, WP.hasPendingKey]
+    rw [this]; exact h.aff k
+
 theorem affInv_updateSettings (w : W) (d : Option (Option (Nat × Mode))) (n : Option Nat) (h : AffInv w) :
     AffInv (w.updateSettings d n) := by
   unfold W.updateSettings
@@ -639,6 +651,7 @@ theorem affInv_handleMsg (w : W) (m : FMsg) (h : AffInv w) : AffInv (w.handleMsg
   | finished who key => exact affInv_workerFinishedJob w who key h
   | adjust n => exact affInv_resizePool w n h
   | updateSettings d n => exact affInv_updateSettings w d n h
+  | setHandler hd => exact affInv_setHandler w hd h
   | drainRequests => exact h.of_pool rfl rfl
   | calculate =>
     show AffInv (if w.cfg.hasCC && w.armed then { w with armed := false, blocked := true } else w.calcRest)
@@ -758,6 +771,7 @@ theorem affInv_applyOp (w : W) (op : Op) (h : AffInv w) : AffInv (w.applyOp op) 
       | none => exact h.of_pool rfl rfl
       | some n => exact h.of_pool rfl rfl
   | drain => exact affInv_send _ _ (h.of_pool rfl rfl)
+  | setHandler hd => exact affInv_send _ _ (h.of_pool rfl rfl)
   | advance => exact h
   | block => exact h.of_pool rfl rfl
   | release n =>
